@@ -39,7 +39,8 @@ GRID = dict(quick=("{17, 45, 64}", "{32, 64}", "{8, 32}", "{0, 3}"),
 TRACE_CFG = "INIT Init\nNEXT Next\nCONSTRAINT Check\nPOSTCONDITION Report\nCHECK_DEADLOCK FALSE\n"
 
 SCALES = ((1, 2), (3, 4), (1, 1), (3, 2))
-FAMILIES = ("plain", "stray_empty_instance", "frame_only_empty_instances", "with_predicted_instances")
+SCALES_ONE = (1, 1)
+FAMILIES = ("plain", "stray_empty_instance", "frame_only_empty_instances", "with_predicted_instances", "videos_share_frame_numbers")
 BLOCK_TOL = 1e-6
 
 
@@ -63,9 +64,13 @@ def make_job(rng, model, scale, family, jid):
     sizes = [(rng.choice([17, 24, 32, 45, 64]), rng.choice([17, 24, 32, 45, 64])) for _ in range(rng.choice([1, 1, 2]))]
     ch = rng.choice([1, 3])
     dtype = rng.choice(["uint8", "uint8", "float32"])
+    if family == "videos_share_frame_numbers":
+        # several videos of ONE size whose labelled frames carry the same frame numbers and are adjacent in label
+        # order (frame 0 of video 0, frame 0 of video 1, ...): anything keyed by frame number alone mixes them up
+        sizes = [sizes[0]] * rng.choice([2, 3])
     frames = []
     for vid, (h, w) in enumerate(sizes):
-        for _f in range(rng.choice([1, 2])):
+        for _f in range(1 if family == "videos_share_frame_numbers" else rng.choice([1, 2])):
             n_inst = 1 if model == "single_instance" else rng.choice([1, 2, 3])
             frames.append(dict(video=vid, hw=[h, w], instances=[_rand_instance(rng, h, w, n_nodes) for _ in range(n_inst)]))
     if family == "stray_empty_instance":        # an all-NaN instance next to the real ones (an empty instance left in the project)
@@ -432,7 +437,7 @@ def run(tier, seed):
                 jobs.append(make_job(rng, model, scale, "plain", len(jobs)))
         for fam in FAMILIES[1:]:
             for _ in range(2 if tier == "quick" else 8):
-                jobs.append(make_job(rng, model, rng.choice(SCALES), fam, len(jobs)))
+                jobs.append(make_job(rng, model, (SCALES_ONE if fam == "videos_share_frame_numbers" else rng.choice(SCALES)), fam, len(jobs)))
     recs = []
     for job in jobs:
         recs += run_job(job, len(recs))
